@@ -124,6 +124,15 @@ func (this *Hnsw) Save(w io.Writer, header bool) error {
 	return nil
 }
 
+func (this *Hnsw) reset() {
+	for i, _ := range this.vertices {
+		this.vertices[i] = make(map[uuid.UUID]*hnswVertex)
+	}
+	atomic.StoreUint64(&this.len, 0)
+	atomic.StoreUint64(&this.bytesSize, 0)
+	atomic.StorePointer(&this.entrypoint, nil)
+}
+
 func (this *Hnsw) Load(r io.Reader, header bool) error {
 	if header {
 		var size uint32
@@ -151,6 +160,11 @@ func (this *Hnsw) Load(r io.Reader, header bool) error {
 
 	uuidBuf := make([]byte, uuid.Size)
 	if _, err := r.Read(uuidBuf); err != nil {
+		if err == io.EOF {
+			// Save writes nothing (past the header) for an empty index.
+			this.reset()
+			return nil
+		}
 		return err
 	}
 	entrypointId, err := uuid.FromBytes(uuidBuf)
